@@ -18,7 +18,7 @@ RULE = ("rtdrv in free-running mode, libovni and driver built with ThreadSanitiz
         "report with a frame in ovni.c / common.c / parson.c; (2) every thread's stream equals its own emit log "
         "and its stream.json holds exactly its tid, the attributes, requires, CPUs and marks it set; (3) race "
         "trials: exactly one caller returns normally, the others are refused, the process directory exists once, "
-        "the winner can init a thread and trace.  Non-trivial = >= 2 threads whose measured op intervals overlap; "
+        "the winner can init a thread and trace; ovni_proc_init after or racing with ovni_proc_fini of the initialised process is refused and a finished stream stays untouched.  Non-trivial = >= 2 threads whose measured op intervals overlap; "
         "distinct = program.")
 ASSUMPTIONS = ["the schedule is owned by the OS: interleavings are sampled, not enumerated; ThreadSanitizer's happens-before "
                "analysis generalises data races over schedules, logical races between two atomics are found only probabilistically"]
@@ -84,7 +84,14 @@ def programs(draw):
         threads[0] = [o for o in threads[0] if o[0] != "spin"] + [["barrier"]]
         for t in range(1, nth):
             threads[t] = [["barrier"]] + [o for o in threads[t] if o[0] != "spin"]
-    return {"threads": threads, "tmpdir": draw(st.booleans()), "late": late}
+    # thread ids 300, 301, ... or 300 + k * 32768 (any positive number is a legal thread id)
+    step = draw(st.sampled_from([1, 1, 32768, 65536]))
+    if step != 1:
+        for t in range(nth):
+            for o in threads[t]:
+                if o[0] == "init":
+                    o[1] = 300 + t * step
+    return {"threads": threads, "tmpdir": draw(st.booleans()), "late": late, "tidstep": step}
 
 
 def to_script(case):
@@ -158,7 +165,8 @@ def run(case, ctx):
             raise Violation("driver did not finish: %s" % rr.res.brief())
         for t, ops in enumerate(case["threads"]):
             who = "T%d" % t
-            sd = os.path.join(rr.tracedir, "loom.node.1", "proc.5", "thread.%d" % (300 + t))
+            tid = 300 + t * case.get("tidstep", 1)
+            sd = os.path.join(rr.tracedir, "loom.node.1", "proc.5", "thread.%d" % tid)
             try:
                 data = open(os.path.join(sd, "stream.obs"), "rb").read()
                 meta = json.load(open(os.path.join(sd, "stream.json")))
@@ -173,7 +181,7 @@ def run(case, ctx):
                 raise Violation("thread %d stream is not what that thread emitted: %s" % (t, prob))
             attrs, req, cpus, marks = expected_meta(ops)
             o = meta.get("ovni", {})
-            if o.get("tid") != 300 + t or o.get("finished") != 1:
+            if o.get("tid") != tid or o.get("finished") != 1:
                 raise Violation("thread %d metadata tid/finished wrong: %s" % (t, {k: o.get(k) for k in ("tid", "finished")}))
             greq = dict(o.get("require", {}))
             greq.pop("ovni", None)
@@ -205,11 +213,66 @@ def run(case, ctx):
 
 @st.composite
 def races(draw):
-    return {"kind": draw(st.sampled_from(["init", "fini"])), "n": draw(st.integers(2, 8)),
+    return {"kind": draw(st.sampled_from(["init", "fini", "init-vs-fini", "init-after-fini"])), "n": draw(st.integers(2, 8)),
             "spins": [draw(st.integers(0, 3000)) for _ in range(8)], "tmpdir": draw(st.booleans())}
 
 
+def run_reinit(case, ctx):
+    """The process was initialised and one thread has traced and finished.  T0 finalises the
+    process while (init-vs-fini) or before (init-after-fini, ordered by a barrier) other threads
+    call ovni_proc_init again: initialisation takes effect exactly once, so every later init is
+    refused and the finished stream stays as it is."""
+    n = case["n"]
+    lines = ["MODE free", "P init 1 %s 5" % rt.hx("node.1")]
+    lines += ["T0 init 300", "T0 ev %s 1000" % rt.hx("OHx") + " " + "ffffffffffffffff0000000000000000", "T0 ev %s 1001" % rt.hx("OB."),
+              "T0 ev %s 1002" % rt.hx("OHe"), "T0 flush", "T0 free"]
+    if case["spins"][0]:
+        lines.append("T0 spin %d" % case["spins"][0])
+    lines.append("T0 pfini")
+    ordered = case["kind"] == "init-after-fini"
+    if ordered:
+        lines.append("T0 barrier")
+    for t in range(1, n):
+        if ordered:
+            lines.append("T%d barrier" % t)
+        elif case["spins"][t]:
+            lines.append("T%d spin %d" % (t, case["spins"][t]))
+        lines.append("T%d pinit 1 %s 5" % (t, rt.hx("node.1")))
+    d = ctx.newdir()
+    try:
+        rr = rt.run_script(ctx.shared["rtdrv"], lines, d, tmpdir_mode=case["tmpdir"], env=TSAN_ENV, cpu_s=60, wall_s=200)
+        tsan_check(rr.res, "proc_init against proc_fini")
+        if rr.res.kind != "ok":
+            raise Violation("driver did not finish: %s" % rr.res.brief())
+        for t in range(n):
+            log = rr.logs.get("T%d" % t, {})
+            for i, l in enumerate(lines, 1):
+                if l.startswith("T%d pinit" % t):
+                    stt = log.get(i)
+                    if stt and stt[0] == "ok":
+                        raise Violation("ovni_proc_init by thread %d was accepted although the process had been initialised before (%s)"
+                                        % (t, "after ovni_proc_fini returned" if ordered else "racing with ovni_proc_fini"))
+                    if not stt or stt[0] != "refused":
+                        raise Violation("thread %d: proc_init neither returned nor was refused (%s)" % (t, stt))
+                if l.startswith("T%d pfini" % t):
+                    stt = log.get(i)
+                    if not stt or stt[0] != "ok":
+                        raise Violation("ovni_proc_fini of the initialised process did not return normally (%s)" % (stt,))
+        sd = os.path.join(rr.tracedir, "loom.node.1", "proc.5", "thread.300")
+        try:
+            dec = obs.decode_stream(open(os.path.join(sd, "stream.obs"), "rb").read())
+        except Exception as e:
+            raise Violation("the finished stream of thread 300 is gone or damaged after the second init attempt: %s" % e)
+        if [e.mcv for e in dec if e.mcv not in ("OF[", "OF]")] != ["OHx", "OB.", "OHe"]:
+            raise Violation("the finished stream of thread 300 changed after the second init attempt: %s" % [e.mcv for e in dec])
+        return {"nt": True, "cls": ["race:" + case["kind"], "racers:%d" % n]}
+    finally:
+        ctx.rmdir(d)
+
+
 def run_race(case, ctx):
+    if case["kind"] in ("init-vs-fini", "init-after-fini"):
+        return run_reinit(case, ctx)
     n = case["n"]
     lines = ["MODE free"]
     if case["kind"] == "fini":
